@@ -9,8 +9,47 @@ FAMILIES = [('conditions', 300, 10000, {})]
 MONITORS = ['C08']
 
 
+def revert_family(rng, n):
+    """changes that revert within one time step: a condition becomes true and false again (or the reverse for
+    a negated one) through two activities queued ahead of the woken waiter"""
+    out = []
+    for i in range(n):
+        f = rng.randrange(2)
+        atom = rng.choice([['flag', f], ['cmp', 0, 'ge', 2], ['cmp', 0, 'eq', 2], ['cmp2', 0, 'gt', 1]])
+        if atom[0] == 'flag':
+            on, off = ['set_flag', f, True], ['set_flag', f, False]
+        else:
+            on, off = ['set_tracked', 0, 2], ['set_tracked', 0, rng.choice([0, 1])]
+        neg = rng.random() < 0.3
+        cond = ['not', atom] if neg else atom
+        if neg:
+            on, off = off, on
+        wrap = rng.random()
+        if wrap < 0.25:
+            cond = ['and', cond, ['before', 50]]
+        elif wrap < 0.5:
+            cond = ['or', cond, ['flag', 1 - f] if atom[0] != 'flag' else ['cmp', 1, 'gt', 5]]
+        elif wrap < 0.6:
+            cond = ['and', ['or', cond, ['after', 40]], ['instant']]
+        t = rng.choice([1, 1, 2])
+        roots = []
+        if neg:
+            roots.append([on if False else (['set_flag', f, True] if atom[0] == 'flag' else ['set_tracked', 0, 2])])
+        waiters = rng.choice([1, 1, 2, 3])
+        for w in range(waiters):
+            roots.append([['await', cond], ['log', 10 + w]])
+        a = [['await', ['delay', t]], on, ['log', 20]]
+        b = [['await', ['delay', t]], off, ['log', 21]]
+        roots += [a, b] if rng.random() < 0.8 else [b, a]
+        if rng.random() < 0.7:
+            roots.append([['await', ['delay', t + rng.choice([0, 1, 2])]], ['await', ['instant']], on, ['log', 22]])
+        rng.shuffle(roots) if rng.random() < 0.3 else None
+        out.append(('revert', dict(start=0, till=None, roots=roots, nflags=2, tracked=[0, 1], nlocks=1, nqueues=1, nchans=1)))
+    return out
+
+
 def run(ctx):
-    machine_prop.run(ctx, FAMILIES, MONITORS)
+    machine_prop.run(ctx, FAMILIES, MONITORS, extra_scenarios=revert_family(ctx.rng, ctx.n(80, 1500)))
 
 
 def search(ctx):
